@@ -1,7 +1,7 @@
 (* Extraction of the executable models and oracles.  ExtrOcamlBasic only:
    bool/option/unit/list/prod/sumbool/sumor map to OCaml's; nat, positive, N, Z stay Coq datatypes. *)
 From Coq Require Import Extraction ExtrOcamlBasic.
-From SV Require Import Diff Det DiffOracle Lines Config gen_Consts Exec Utf8 gen_Unicode Escape Template gen_Template TemplateModel Crlf Capture gen_Kinds ExpGrammar Rules LineParser CramSpec Markdown MdSpec Generate Update Yaml YamlFlow Render gen_Env Env StateCarry ScriptExec Duration OneLiner GenBlock GenDocs RegexPrep ScriptCompile.
+From SV Require Import Diff Det DiffOracle Lines Config gen_Consts Exec Utf8 gen_Unicode Escape Template gen_Template TemplateModel Crlf Capture gen_Kinds ExpGrammar Rules LineParser CramSpec Markdown MdSpec Generate Update Yaml YamlFlow Render gen_Env Env StateCarry ScriptExec Duration OneLiner GenBlock GenDocs RegexPrep ScriptCompile Ansi.
 Extraction Language OCaml.
 (* stable names for the driver (record field names may be renamed by the extraction when they clash) *)
 Definition make_exp (o m : bool) (f : nat -> bool) : exp nat := mkExp nat o m f.
@@ -21,7 +21,7 @@ Extraction "svmodel.ml"
   parse_md md_tokens render_md render_elem wf_md md_tests_of extract_title extract_code_block_start
   yaml_quoted yaml_scalar yaml_unquote read_scalar
   expectation_line rule_matches update_md outside has_command tok_raw trim_start
-  format_duration parse_duration one_liner read_one_liner gen_cram_doc gen_md_doc gen_cram_docs gen_md_docs ydiff ywith_defaults gen_config_suffix regex_prepare compile_script
+  format_duration parse_duration one_liner read_one_liner gen_cram_doc gen_md_doc gen_cram_docs gen_md_docs strip_sgr sgr_text ydiff ywith_defaults gen_config_suffix regex_prepare compile_script
   persisted_names excluded split_outputs ideal parse_divider read_env env_text
   dir_run_docs dir_processed next_names scrut_test_value env_always env_cram_compat
   render_pretty render_diff structured result_ok utf8_lossy highlight dec
